@@ -17,7 +17,7 @@ Local Open Scope N_scope.
 
 Fixpoint le_bytes (k : nat) (x : N) : bytes :=
   match k with
-  | O => []
+  | 0%nat => []
   | S k' => (x mod 256) :: le_bytes k' (x / 256)
   end.
 
@@ -190,15 +190,15 @@ Inductive dec_err :=
 | OutOfFuel.                           (* model artefact; proved unreachable *)
 
 Section WithOracles.
-Variable O : oracles.
+Variable Orc : oracles.
 
 (** [UnifiedSpendingKey::to_unified_full_viewing_key] *)
 Definition usk_to_ufvk (k : usk) : ufvk :=
-  mkUfvk (Some (t_sk_pk O (usk_t k))) (Some (s_sk_fvk O (usk_s k))) (Some (o_sk_fvk O (usk_o k))) [].
+  mkUfvk (Some (t_sk_pk Orc (usk_t k))) (Some (s_sk_fvk Orc (usk_s k))) (Some (o_sk_fvk Orc (usk_o k))) [].
 
 (** [UnifiedSpendingKey::from_checked_parts] *)
 Definition usk_from_checked_parts (t s o : bytes) : outcome usk unit :=
-  match t_pk_ivk O (t_sk_pk O t) with
+  match t_pk_ivk Orc (t_sk_pk Orc t) with
   | Some _ => Ok (mkUsk t s o)
   | None => Err tt
   end.
@@ -207,7 +207,7 @@ Definition usk_from_checked_parts (t s o : bytes) : outcome usk unit :=
 Definition ufvk_from_checked_parts (t s o : option bytes) (unknown : list item)
   : outcome ufvk unit :=
   match t with
-  | Some pk => match t_pk_ivk O pk with
+  | Some pk => match t_pk_ivk Orc pk with
                | Some _ => Ok (mkUfvk t s o unknown)
                | None => Err tt
                end
@@ -217,10 +217,10 @@ Definition ufvk_from_checked_parts (t s o : option bytes) (unknown : list item)
 (** [UnifiedFullViewingKey::to_unified_incoming_viewing_key]; the [expect] on the transparent
     derivation is a panic. *)
 Definition ufvk_to_uivk (k : ufvk) : outcome uivk unit :=
-  let s := option_map (s_fvk_ivk O) (fvk_s k) in
-  let o := option_map (o_fvk_ivk O) (fvk_o k) in
+  let s := option_map (s_fvk_ivk Orc) (fvk_s k) in
+  let o := option_map (o_fvk_ivk Orc) (fvk_o k) in
   match fvk_t k with
-  | Some pk => match t_pk_ivk O pk with
+  | Some pk => match t_pk_ivk Orc pk with
                | Some ivk => Ok (mkUivk (Some ivk) s o [])
                | None => Panic
                end
@@ -241,7 +241,7 @@ Definition usk_to_bytes (k : usk) : bytes :=
     item overwrites the earlier one). Fuel: every iteration consumes at least two bytes. *)
 Fixpoint usk_loop (fuel : nat) (src : bytes) (o s t : option bytes) : outcome usk dec_err :=
   match fuel with
-  | O => Err OutOfFuel
+  | 0%nat => Err OutOfFuel
   | S fuel' =>
     match cs_read src with
     | None => Err (ReadError 1)
@@ -267,7 +267,7 @@ Fixpoint usk_loop (fuel : nat) (src : bytes) (o s t : option bytes) : outcome us
               else match take (N.to_nat USK_ORCHARD_LEN) src2 with
                    | None => Err (InsufficientData TcOrchard)
                    | Some (key, rest) =>
-                       match dec_o_sk O key with
+                       match dec_o_sk Orc key with
                        | OSome k => continue (Some k) s t rest
                        | ONone => Err (KeyDataInvalid TcOrchard)
                        | OPanic => Panic
@@ -278,7 +278,7 @@ Fixpoint usk_loop (fuel : nat) (src : bytes) (o s t : option bytes) : outcome us
               else match take (N.to_nat USK_SAPLING_LEN) src2 with
                    | None => Err (InsufficientData TcSapling)
                    | Some (key, rest) =>
-                       match dec_s_sk O key with
+                       match dec_s_sk Orc key with
                        | OSome k => continue o (Some k) t rest
                        | ONone => Err (KeyDataInvalid TcSapling)
                        | OPanic => Panic
@@ -289,7 +289,7 @@ Fixpoint usk_loop (fuel : nat) (src : bytes) (o s t : option bytes) : outcome us
               else match take (N.to_nat USK_P2PKH_LEN) src2 with
                    | None => Err (InsufficientData TcP2pkh)
                    | Some (key, rest) =>
-                       match dec_t_sk O key with
+                       match dec_t_sk Orc key with
                        | OSome k => continue o s (Some k) rest
                        | ONone => Err (KeyDataInvalid TcP2pkh)
                        | OPanic => Panic
@@ -414,7 +414,7 @@ Fixpoint read_items (k : ukind) (fuel : nat) (buf : bytes) : outcome (list item)
   | [] => Ok []
   | _ =>
     match fuel with
-    | O => Err ParseOutOfFuel
+    | 0%nat => Err ParseOutOfFuel
     | S fuel' =>
       match cs_read buf with
       | None => Err InvalidEncoding
@@ -548,7 +548,7 @@ Fixpoint parse_loop (dt ds do_ : bytes -> ores) (l : list item) (t s o : option 
 
 (** [UnifiedFullViewingKey::parse] *)
 Definition ufvk_parse (l : list item) : outcome ufvk dec_err :=
-  match parse_loop (dec_t_fvk O) (dec_s_fvk O) (dec_o_fvk O) l None None None [] with
+  match parse_loop (dec_t_fvk Orc) (dec_s_fvk Orc) (dec_o_fvk Orc) l None None None [] with
   | Ok (t, s, o, unk) =>
       match ufvk_from_checked_parts t s o unk with
       | Ok k => Ok k
@@ -559,7 +559,7 @@ Definition ufvk_parse (l : list item) : outcome ufvk dec_err :=
 
 (** [UnifiedIncomingViewingKey::parse] (no derivation check) *)
 Definition uivk_parse (l : list item) : outcome uivk dec_err :=
-  match parse_loop (dec_t_ivk O) (dec_s_ivk O) (dec_o_ivk O) l None None None [] with
+  match parse_loop (dec_t_ivk Orc) (dec_s_ivk Orc) (dec_o_ivk Orc) l None None None [] with
   | Ok (t, s, o, unk) => Ok (mkUivk t s o unk)
   | Err e => Err e | Panic => Panic
   end.
@@ -645,7 +645,7 @@ Definition uivk_address (k : uivk) (j : N) (r : request) : outcome ua aerr :=
     let ro : outcome (option bytes) aerr :=
       if negb (req_eqb (rq_o q) Omit) then
         match ivk_o k with
-        | Some oivk => Ok (Some (o_addr O oivk j))
+        | Some oivk => Ok (Some (o_addr Orc oivk j))
         | None => if req_eqb (rq_o q) Require then Err (KeyNotAvailable TcOrchard) else Ok None
         end
       else Ok None in
@@ -656,7 +656,7 @@ Definition uivk_address (k : uivk) (j : N) (r : request) : outcome ua aerr :=
         if negb (req_eqb (rq_s q) Omit) then
           match ivk_s k with
           | Some divk =>
-              match rq_s q, s_addr O divk j with
+              match rq_s q, s_addr Orc divk j with
               | (Require | Allow), Some a => Ok (Some a)
               | Require, None => Err (InvalidSaplingDiversifierIndex j)
               | _, _ => Ok None
@@ -672,7 +672,7 @@ Definition uivk_address (k : uivk) (j : N) (r : request) : outcome ua aerr :=
             match ivk_t k with
             | Some tivk =>
                 let a := match to_transparent_child_index j with
-                         | Some i => t_addr O tivk i
+                         | Some i => t_addr Orc tivk i
                          | None => None
                          end in
                 match rq_t q, a with
@@ -710,7 +710,7 @@ Definition usk_address (k : usk) (j : N) (r : request) : outcome ua aerr :=
     [DiversifierIndex::increment] fails past 2^88 - 1. *)
 Fixpoint uivk_find_address (fuel : nat) (k : uivk) (j : N) (r : request) : outcome (ua * N) aerr :=
   match fuel with
-  | O => Err FindOutOfFuel
+  | 0%nat => Err FindOutOfFuel
   | S fuel' =>
       match uivk_address k j r with
       | Ok a => Ok (a, j)
